@@ -19,9 +19,10 @@ THEOREMS += [
     (P + "conflict_table_exact", "proved", "for transitions whose sources are neither equal nor nested conflictBools says exactly that the static exit sets share a state"),
     (P + "ancestors_are_w3c", "proved", "ancBools is Appendix D's isDescendant"),
     ("UscxmlVerif.Proofs.Struct.findLCCA_eq", "proved", "findLCCA of Predicates.cpp (walk over getProperAncestors, fall back to the last one) is Appendix D's findLCCA on coherent charts"),
+    (P + "flatten_is_coherent", "proved", "`Coherent` holds of flatten d for EVERY document d whose root is <scxml>, in which only scxml/state/parallel elements have state-like children and no child is an scxml element (pre-order numbering lemma: the stored parent number is smaller and names the node whose child it is; resortStates keeps a document well formed)"),
     ("UscxmlVerif.Proofs.Struct.coh_of_coherent", "proved", "the decidable predicate the driver evaluates on every generated chart gives the hypotheses the lemmas use"),
 ]
-LEAN_FILES = ["UscxmlVerif.Properties.C05", "UscxmlVerif.Proofs.Struct"]
+LEAN_FILES = ["UscxmlVerif.Properties.C05", "UscxmlVerif.Proofs.Struct", "UscxmlVerif.Proofs.Flatten"]
 FINISH = {"level": "proof"}
 
 
@@ -67,10 +68,11 @@ def run(ctx):
     # the hypotheses of the theorems on the generated charts
     lines = [E.case_line("tables", d, []) for d, _ in cases]
     C = [x for part in chunks(lines, 400) for x in ctx.driver_lines("coherent", part, timeout=1800)]
-    st["coherent"] = sum(1 for x in C if x.startswith("coh=1"))
+    st["coherent"] = sum(1 for x in C if "coh=1" in x)
+    st["wellformed_docs"] = sum(1 for x in C if "wfdoc=1" in x)
     st["plain_transitions"] = sum(int(x.split("plain=")[1].split("/")[0]) for x in C if "plain=" in x)
     for (d, _), x in zip(cases, C):
-        if not x.startswith("coh=1") and not any(p.endswith("coherent.txt") for p, _ in ctx.violations):
+        if not ("coh=1" in x and "wfdoc=1" in x) and not any(p.endswith("coherent.txt") for p, _ in ctx.violations):
             ctx.violation("coherent", "tables", [E.case_line("tables", d, [])], found_input=False,
                           detail="a generated (valid) document is outside the hypothesis `Coherent` of the C05 theorems (%s): they say nothing about it\nchart: %s" % (x, charts.sexpr(d)))
     ctx.add_suite("tables", **st)
